@@ -141,7 +141,9 @@ fn is_pattern(b: &[u8]) -> bool {
 #[must_use]
 pub fn hexz(b: &[u8]) -> String {
     if b.len() >= ZMIN {
-        for p in [0usize, 5] {
+        // (wave 9a: … or, in a Datagram frame, after the header, the host length, the port and the host)
+        let dg = if b.len() > 8 && b[0] & 0x0f == 6 { 8 + usize::from(b[5]) } else { 0 };
+        for p in [0usize, 5, dg] {
             if b.len() >= p + ZMIN && is_pattern(&b[p..]) {
                 return format!("{}z:{}:{}", hex(&b[..p]), b.len() - p, b[p]);
             }
@@ -177,6 +179,19 @@ pub fn msg_text(m: &Message) -> String {
 impl Sim {
     #[must_use]
     pub fn new(name: &str, opts: SimOpts) -> Self {
+        Self::build(name, opts, true)
+    }
+
+    /// (wave 9b) An endpoint whose connection task has been created (`new_detailed` … `into_task`) but not
+    /// polled yet — a task that was spawned and has not been scheduled: application calls made now find a
+    /// `Multiplexor` whose task does nothing, deliveries and transport faults wait in the transport. The
+    /// stimulus `start` is the task's first poll.
+    #[must_use]
+    pub fn new_unstarted(name: &str, opts: SimOpts) -> Self {
+        Self::build(name, opts, false)
+    }
+
+    fn build(name: &str, opts: SimOpts, started: bool) -> Self {
         let ws = SimWs::new();
         let rng = ScriptRng::new();
         let (mux, taskdata) =
@@ -204,8 +219,13 @@ impl Sim {
             src_over: false,
             compact: false,
         };
-        // first poll of the task (registers its wakers); produces no observable event
-        let _ = s.settle();
+        if started {
+            // first poll of the task (registers its wakers); produces no observable event
+            let _ = s.settle();
+        } else {
+            // (slot 0 is the task: it stays unpolled — its wake flag set — until `start`)
+            s.exec.slots[0].held = true;
+        }
         s
     }
 
@@ -346,6 +366,24 @@ impl Sim {
                     Poll::Ready(None) => { x.parked = false; "brokenpipe".into() }
                 }
             }
+            // (wave 9a) up to `n` one-byte writes back to back — the j-th carries the byte (k + j) mod 251 —
+            // stopping at the first call that is not accepted; the connection task runs afterwards, once.
+            // Answer: `many <accepted> <done | pending | brokenpipe | …>`
+            ["writemany", h, n, k] => {
+                let (h, n, k) = (num(h) as usize, num(n) as usize, num(k) as usize);
+                if self.stream_mut(h).is_none() { return "many 0 badhandle".into(); }
+                let mut done = 0usize;
+                let mut last = String::from("done");
+                while done < n {
+                    let b = [((k + done) % 251) as u8];
+                    let out = self.write(h, &[&b]);
+                    if out.starts_with("wrote ") { done += 1; } else { last = out; break; }
+                }
+                format!("many {done} {last}")
+            }
+            // (wave 9a) the scripted peer has taken everything this endpoint has sent so far and says nothing:
+            // nothing to do at the endpoint (the harness forgets the wire content)
+            ["wiredrop"] => "unit".into(),
             ["read", h, n] => {
                 let (h, n) = (num(h) as usize, num(n) as usize);
                 let Some(s) = self.stream_mut(h) else { return "badhandle".into() };
@@ -416,7 +454,7 @@ impl Sim {
                     flow_id: num(fid) as u32,
                     target_host: Bytes::from(crate::unhex(host).expect("hex")),
                     target_port: num(port) as u16,
-                    data: Bytes::from(crate::unhex(d).expect("hex")),
+                    data: Bytes::from(unhexz(d).expect("hex")),
                 };
                 match poll_once(mux.send_datagram(dg)) {
                     Poll::Ready(Ok(())) => "unit".into(),
@@ -430,7 +468,7 @@ impl Sim {
                     Poll::Pending => "pending".into(),
                     Poll::Ready(Err(e)) => err_name(&e).into(),
                     Poll::Ready(Ok(d)) => {
-                        format!("dgram {} {} {} {}", d.flow_id, hexd(&d.target_host), d.target_port, hexd(&d.data))
+                        format!("dgram {} {} {} {}", d.flow_id, hexd(&d.target_host), d.target_port, if self.compact { hexz(&d.data) } else { hexd(&d.data) })
                     }
                 }
             }
@@ -493,6 +531,17 @@ impl Sim {
             ["releasereq", req] => {
                 let slot = self.binds.get(&num(req)).or_else(|| self.opens.get(&num(req))).copied();
                 match slot { Some(i) => { self.exec.slots[i].held = false; "unit".into() } None => "badhandle".into() }
+            }
+            // (wave 9b) the first poll of a task created with `new_unstarted` (nothing happens otherwise)
+            ["start"] => { self.exec.slots[0].held = false; "unit".into() }
+            // (wave 9b) the outbound direction of the transport fails: every sink operation (`poll_ready`,
+            // `start_send`, `poll_flush`, `poll_close`) reports an error from now on, and the connection task
+            // is polled (a transport that reports a failure wakes whoever uses it; a spurious poll is always
+            // legal). An unstarted task stays unpolled: it meets the dead sink at its first poll.
+            ["sinkfail"] => {
+                self.ws.fail_sink();
+                std::task::Wake::wake_by_ref(&self.exec.slots[0].flag);
+                "unit".into()
             }
             ["sinkblock"] => { self.ws.set_sink_room(Some(0)); "unit".into() }
             ["sinkunblock"] => { self.ws.set_sink_room(None); "unit".into() }
@@ -595,6 +644,22 @@ impl Sim {
     #[must_use]
     pub fn shut_while_parked_woken(&self, h: usize) -> Option<bool> {
         self.handles.get(h).filter(|x| x.shut_while_parked && x.stream.is_some()).map(|x| x.wflag.is_set())
+    }
+
+    /// (wave 9b) The flow id of the stream behind handle `h`, as the stream's own `Debug` output shows it
+    /// (`flow_id: xxxxxxxx`; the field itself is not public). `None`: no such handle, or it was dropped.
+    #[must_use]
+    pub fn flow_id(&self, h: usize) -> Option<u32> {
+        let s = self.handles.get(h)?.stream.as_ref()?;
+        let d = format!("{s:?}");
+        let at = d.find("flow_id: ")? + "flow_id: ".len();
+        u32::from_str_radix(d.get(at..at + 8)?, 16).ok()
+    }
+
+    /// (wave 9b) Is the future of bind / open request `req` kept unpolled by `holdreq`?
+    #[must_use]
+    pub fn req_held(&self, req: u64) -> bool {
+        self.binds.get(&req).or_else(|| self.opens.get(&req)).is_some_and(|i| self.exec.slots[*i].held)
     }
 
     /// `idle | parked | woken` for the writer of handle `h`.
